@@ -1434,7 +1434,7 @@ fn decode_all(l: &mut Local, bits: usize, input: &[u8]) {
         exec(l, bits, Op::compact_opaque_dec, &args);
     }
     // the digit-list parsers with every byte as one digit
-    for b in [3u64, 10, 255, 256, u64::MAX] {
+    for b in [3u64, 10, 255, 256, 1 << 16, 1 << 32, (1 << 32) + 1, 1 << 63, u64::MAX] {
         exec(l, bits, Op::base_le_dec, &[args[0].clone(), V::N(b as u128)]);
         exec(l, bits, Op::base_be_dec, &[args[0].clone(), V::N(b as u128)]);
     }
